@@ -148,7 +148,7 @@ type workerJob struct {
 
 func workerEnv(prop, tier string, extra ...string) []string {
 	env := append(os.Environ(), "GOMAXPROCS="+envOr("VERIF_GOMAXPROCS", "1"), "GOTRACEBACK=all",
-		"VERIF_PROP="+prop, "VERIF_TIER="+tier, "VERIF_KNOWN="+filepath.Join(verifDir, "known_findings.jsonl"))
+		"VERIF_PROP="+prop, "VERIF_TIER="+tier, "VERIF_KNOWN="+filepath.Join(verifDir, "KNOWN_FINDINGS"))
 	return append(env, extra...)
 }
 
@@ -337,7 +337,7 @@ func check(prop string, def propDef, tier string) {
 	wg.Wait()
 
 	agg := aggregate(results)
-	findings, ferr := dst.LoadFindings(filepath.Join(verifDir, "known_findings.jsonl"))
+	findings, ferr := dst.LoadFindings(filepath.Join(verifDir, "KNOWN_FINDINGS"))
 	if ferr != nil {
 		harness = append(harness, ferr.Error())
 	}
